@@ -41,10 +41,10 @@ func TestVerifC11(t *testing.T) {
 	if ev.Thorough() {
 		depth = 7
 	}
-	r.Rule(fmt.Sprintf("breadth-first search to depth %d from roots with a bound fixed-IP pod over the same alphabet as C10 with clock steps {61 s, TTL-1 s, TTL+1 s, 10 min+1 s} and pod kinds {fixed TTL, fixed Never, two interfaces TTL+elastic, two interfaces TTL+Never}; oracles: a fixed record is moved to Deleting/removed only by the collector, only when now-podLastSeen >= TTL and never when an allocation says Never; closure: a pod that exists (recreated under the same name, same or other node) ends Bind with its new UID on the SAME interface and address", depth))
+	r.Rule(fmt.Sprintf("breadth-first search to depth %d from roots with a bound fixed-IP pod over the same alphabet as C10 with clock steps {61 s, TTL-1 s, TTL+1 s, 10 min+1 s} and pod kinds {fixed TTL, fixed Never, two interfaces TTL+elastic, TTL+Never, Never+TTL, long TTL+short TTL}; oracles: a fixed record is moved to Deleting/removed only by the collector, only when now-podLastSeen >= TTL and never when an allocation says Never; closure: a pod that exists (recreated under the same name, same or other node) ends Bind with its new UID on the SAME interface and address", depth))
 	var cfgs []pwCfg
 	for _, trunk := range []bool{false, true} {
-		for _, k := range []string{"fixed-ttl", "fixed-never", "two", "two-fixed"} {
+		for _, k := range []string{"fixed-ttl", "fixed-never", "two", "two-fixed", "two-fixed-rev", "two-ttl"} {
 			cfgs = append(cfgs, pwCfg{Trunk: trunk, Kinds: []string{k}})
 		}
 	}
